@@ -345,6 +345,10 @@ def solve_minor_model(
         expr = 0
         max_mut = 0
         for a in alleles:
+            if not gene.has_coverage(a[0].major, pos):
+                # This allele has no copy of the gene here (rule 3 already forbids its
+                # mutations at this locus), so it cannot show the reference either
+                continue
             e = [VKEEP[a][m][1] for m in VKEEP[a] if m.pos == pos]
             e += [VNEW[a][m][1] for m in VNEW[a] if m.pos == pos]
             max_mut = max(max_mut, len(e))
